@@ -52,11 +52,15 @@ CONSTANTS
     FnFilter,  \* "all" | "nogeneric3" (first-built entries without the three-argument functions; quick tier)
                \* | "new" (the entries of LibNew: defaults / parameter kinds / call forms / returns) | "old" (first-built)
                \* | "gen" (the entries of LibGen: user-defined generic classes, their constructors and methods)
+               \* | "kwn" (the entries of LibKwn: typed **kwargs next to positional-only / *args parameters, keywords
+               \*   that reuse parameter names)
     MaxSess,   \* most calls per session (0: no sessions)
     Shapes,    \* how the arguments are written: {"plain"} f(a, k=b) and/or "star" f(*(a,), **{"k": b}),
                \* "mixed" f(a, *(b,), **{"k": c}) (first positional explicit), "mixedk" f(*(a,), k=b) (keywords explicit)
     FixProtoCache,  \* TRUE: model the repair proposed in proposed/C06-fix-1.diff (cache keyed by both values)
     Bug        \* "none"; sensitivity self-tests: "varargs_unchecked", "no_inherent_bounds", "default_by_equality",
+               \* "kwargs_drops_bound_names" (a keyword named like ANY already bound parameter is
+               \* left out of the value bound to **kwargs, instead of the keywords a named parameter consumed),
                \* "ctor_self_unmatched" (constructor of a class without type parameters of its own binds self without
                \* matching the declared self type against the class)
 
@@ -129,11 +133,14 @@ TvDecls == <<
     [n |-> "NB", bound |-> <<TFloat>>, cons |-> << >>] >>
 TvDecl(n) == CHOOSE d \in {TvDecls[i] : i \in 1..Len(TvDecls)} : d.n = n
 
-\* parameters: kind "pk" positional-or-keyword | "va" *args | "vk" **kwargs | "ko" keyword-only;
+\* parameters: kind "po" positional-only (before `/`) | "pk" positional-or-keyword | "va" *args | "vk" **kwargs
+\* | "ko" keyword-only;
 \* dflt = << >> or <<default object>>
 Param(n, kd, ann, dflt) == [name |-> n, kind |-> kd, ann |-> ann, dflt |-> dflt]
 P(n, ann) == Param(n, "pk", ann, << >>)
 PD(n, ann, d) == Param(n, "pk", ann, <<d>>)
+PO(n, ann) == Param(n, "po", ann, << >>)
+POD(n, ann, d) == Param(n, "po", ann, <<d>>)
 SELF == P("self", AnyT)      \* unannotated first parameter of methods (its annotation is never read)
 CLS == P("cls", AnyT)
 
@@ -397,14 +404,39 @@ LibGen == <<
     \* a generic class / a generic Protocol (class HasGet(Protocol[T]): def get(self) -> T) as a PARAMETER type
     Fn("unbox", "", "unbox", "plain", "fn", <<P("b", Generic("GBox", <<TV("T")>>))>>, TV("T"), Body("unboxitem", <<1>>, NONE), <<"T">>, << >>),
     Fn("first", "", "first", "plain", "fn", <<P("b", Generic("HasGet", <<TV("T")>>))>>, TV("T"), Body("unboxitem", <<1>>, NONE), <<"T">>, << >>) >>
-Lib == LibOld \o LibNew \o LibGen
+\* ---- typed **kwargs next to parameters that have a NAME but cannot be passed by keyword (positional-only, *args):
+\* a keyword that reuses such a name -- or the name `kwargs` itself, or a foreign name -- lands in **kwargs (PEP 570)
+\* and must be judged against the declared value type of **kwargs.  Bodies return every parameter, so the slot each
+\* argument really lands in is observed (RefResult = CPython's binding, validated on every observation).
+VK(n, ann) == Param(n, "vk", ann, << >>)
+DSS == Generic("dict", <<TStr, TStr>>)
+LibKwn == <<
+    \* def po_kw(a: int, /, **kwargs: str) -> tuple[int, dict[str, str]]: return (a, kwargs)
+    PF("po_kw", <<PO("a", TInt), VK("kwargs", TStr)>>, SeqT("tuple", <<One(TInt), One(DSS)>>), Body("tuple", <<1, 2>>, NONE),
+       << >>, <<"a", "kwargs", "zz">>),
+    \* def po_default_kw(a: int = 0, /, flag: bool = False, **kwargs: str)
+    PF("po_default_kw", <<POD("a", TInt, I0), PD("flag", TBool, BF), VK("kwargs", TStr)>>,
+       SeqT("tuple", <<One(TInt), One(TBool), One(DSS)>>), Body("tuple", <<1, 2, 3>>, NONE), << >>, <<"a", "flag", "kwargs", "zz">>),
+    \* def va_kw(*args: int, **kwargs: str)
+    PF("va_kw", <<Param("args", "va", TInt, << >>), VK("kwargs", TStr)>>,
+       SeqT("tuple", <<One(Generic("tuple", <<TInt>>)), One(DSS)>>), Body("tuple", <<1, 2>>, NONE), << >>, <<"args", "kwargs", "zz">>),
+    \* def dunder_kw(__a: int, **kwargs: str): the runtime-signature route to a positional-only parameter
+    \* (arg_spec.py:496-505).  CPython takes __a for an ordinary parameter at module level; the keyword __a itself is the
+    \* binder's known deviation dunder-parameter-positional-only (C05 / C13) and is not in the menu.
+    PF("dunder_kw", <<P("__a", TInt), VK("kwargs", TStr)>>, SeqT("tuple", <<One(TInt), One(DSS)>>), Body("tuple", <<1, 2>>, NONE),
+       << >>, <<"kwargs", "zz">>),
+    \* def tv_kw(a: T, /, **kwargs: T) -> T: return a
+    PF("tv_kw", <<PO("a", TV("T")), VK("kwargs", TV("T"))>>, TV("T"), BP(1), <<"T">>, <<"a", "kwargs", "zz">>) >>
+Lib == LibOld \o LibNew \o LibGen \o LibKwn
 GenIds == {LibGen[i].id : i \in 1..Len(LibGen)}
-NewIds == {LibNew[i].id : i \in 1..Len(LibNew)} \cup GenIds       \* everything that is not first-built
+KwnIds == {LibKwn[i].id : i \in 1..Len(LibKwn)}
+NewIds == {LibNew[i].id : i \in 1..Len(LibNew)} \cup GenIds \cup KwnIds      \* everything that is not first-built
 
 LibSet == {Lib[i] : i \in 1..Len(Lib)}
 ThreeArg == {"f_3", "f_vakw"}
 ActiveFns == CASE FnFilter = "all" -> LibSet
-               [] FnFilter = "new" -> {f \in LibSet : f.id \in NewIds \ GenIds}
+               [] FnFilter = "new" -> {f \in LibSet : f.id \in NewIds \ (GenIds \cup KwnIds)}
+               [] FnFilter = "kwn" -> {f \in LibSet : f.id \in KwnIds}
                [] FnFilter = "gen" -> {f \in LibSet : f.id \in GenIds}
                [] FnFilter = "old" -> {f \in LibSet : f.id \notin NewIds}
                [] OTHER -> {f \in LibSet : f.id \notin ThreeArg \cup NewIds}       \* "nogeneric3"
@@ -430,6 +462,7 @@ TDArgs == <<Cont("dict", <<KV(SA, I1)>>), Cont("dict", <<KV(SA, SA)>>), Cont("di
 \* the generic-class slice: a small literal menu; tuples where tuple[K, V] is declared; constructed instances (written
 \* IntBox(1), Box('a'), ...) and a literal where a generic class / the protocol HasGet is declared
 LitsG == <<I1, BT, SA, F15, NONE>>
+LitsK == <<SA, I1, BT>>            \* the keyword-names slice: fits str / fits int / fits bool and int
 TupArgs == <<Cont("tuple", <<I1, SA>>), Cont("tuple", <<I1>>), I1>>
 BoxArgs == <<GI("IntBox", I1), GI("StrBox", SA), GI("GBox", SA), GI("SmallIntBox", I1), GI("DBox", I1), I1>>
 GChoices(ann) == CASE ann.k = "seq" -> TupArgs
@@ -450,7 +483,7 @@ ArgChoices(ann) == CASE ann.k = "callable" -> CallableArgs [] ann.k = "subclass"
 KwNames(call) == {call.kw[j].name : j \in 1..Len(call.kw)}
 KwObj(call, n) == (CHOOSE e \in {call.kw[j] : j \in 1..Len(call.kw)} : e.name = n).o
 ParamNames(ps) == {ps[i].name : i \in {j \in 1..Len(ps) : ps[j].kind \in {"pk", "ko"}}}
-NPk(ps) == Cardinality({i \in 1..Len(ps) : ps[i].kind = "pk"})        \* the pk parameters come first
+NPk(ps) == Cardinality({i \in 1..Len(ps) : ps[i].kind \in {"po", "pk"}})  \* the positional parameters come first
 HasKind(ps, kd) == \E i \in 1..Len(ps) : ps[i].kind = kd
 
 (***************************************************************************)
@@ -487,8 +520,8 @@ RefBinds(ps, call) ==
             THEN \A i \in 1..Len(ps) : (ps[i].name = n /\ ps[i].kind = "pk") => i > Len(call.pos)
             ELSE HasKind(ps, "vk")
     /\ \A i \in 1..Len(ps) :
-         (ps[i].kind \in {"pk", "ko"} /\ ps[i].dflt = << >>) =>
-            ((ps[i].kind = "pk" /\ i <= Len(call.pos)) \/ ps[i].name \in KwNames(call))
+         (ps[i].kind \in {"po", "pk", "ko"} /\ ps[i].dflt = << >>) =>
+            ((ps[i].kind \in {"po", "pk"} /\ i <= Len(call.pos)) \/ (ps[i].kind # "po" /\ ps[i].name \in KwNames(call)))
 
 \* the explicit arguments with the declared type of the parameter each binds to
 RefPosDecl(ps, i) == IF i <= NPk(ps) THEN ps[i].ann ELSE (CHOOSE p \in {ps[j] : j \in 1..Len(ps)} : p.kind = "va").ann
@@ -502,7 +535,8 @@ RefExplicit(ps, call) ==
 \* the runtime object each parameter is bound to when the body runs
 RefBoundObj(ps, call, i) ==
     LET p == ps[i]
-    IN CASE p.kind = "pk" -> IF i <= Len(call.pos) THEN call.pos[i]
+    IN CASE p.kind = "po" -> IF i <= Len(call.pos) THEN call.pos[i] ELSE p.dflt[1]   \* never from a keyword (PEP 570)
+         [] p.kind = "pk" -> IF i <= Len(call.pos) THEN call.pos[i]
                              ELSE IF p.name \in KwNames(call) THEN KwObj(call, p.name) ELSE p.dflt[1]
          [] p.kind = "ko" -> IF p.name \in KwNames(call) THEN KwObj(call, p.name) ELSE p.dflt[1]
          [] p.kind = "va" -> Cont("tuple", [j \in 1..(Len(call.pos) - (i - 1)) |-> call.pos[i - 1 + j]])
@@ -628,7 +662,9 @@ ImplArgVal(o) ==
 Bnd(v, src) == [val |-> v, src |-> src]
 ImplBoundAt(ps, call, i) ==
     LET p == ps[i]
-    IN CASE p.kind = "pk" ->
+    IN CASE p.kind = "po" ->                                                                      \* signature.py:822-855
+              IF i <= Len(call.pos) THEN Bnd(ImplArgVal(call.pos[i]), "arg") ELSE Bnd(Known(p.dflt[1]), "default")
+         [] p.kind = "pk" ->
               IF i <= Len(call.pos) THEN Bnd(ImplArgVal(call.pos[i]), "arg")                      \* signature.py:868-884
               ELSE IF p.name \in KwNames(call) THEN Bnd(ImplArgVal(KwObj(call, p.name)), "arg")   \* :918-932
               ELSE Bnd(Known(p.dflt[1]), "default")                                               \* :942-943
@@ -641,7 +677,12 @@ ImplBoundAt(ps, call, i) ==
               \* :1022-1051 TypedDictValue(items), which is a GenericValue(dict, [str, union of the entry
               \* types]) (value.py:1441-1453) as far as can_assign of dict[K, V] is concerned
               \* (a **{...} literal is split into keywords in REVERSED order, signature.py:2229)
-              LET ex0 == SelectSeq(call.kw, LAMBDA e : e.name \notin ParamNames(ps))
+              \* The keywords left for **kwargs are those no named parameter CONSUMED (:1029-1031 keywords_consumed,
+              \* filled only where a keyword is bound to a parameter :888 / :933 / :974 / :984): a keyword named like a
+              \* positional-only parameter, like *args or like **kwargs itself was consumed by nobody and stays.
+              LET taken == IF Bug = "kwargs_drops_bound_names" THEN {ps[j].name : j \in {m \in 1..Len(ps) : ps[m].kind # "vk"}}
+                           ELSE ParamNames(ps)
+                  ex0 == SelectSeq(call.kw, LAMBDA e : e.name \notin taken)
                   extra == IF call.shape \in {"star", "mixed"} THEN [j \in 1..Len(ex0) |-> ex0[Len(ex0) + 1 - j]] ELSE ex0
               IN Bnd(Generic("dict", <<TStr, IF extra = << >> THEN AnyU
                                              ELSE ImplUnite([j \in 1..Len(extra) |-> ImplArgVal(extra[j].o)])>>), "arg")
@@ -917,8 +958,8 @@ ImplParamOK(p, ann, b) ==
 \* In the mixed shapes only the arguments written on their own keep a node: the first positional of
 \* f(a, *(b,), **{"k": c}) ("mixed"), the keywords of f(*(a,), k=b) ("mixedk").
 ImplOwnNode(ps, call, i) ==
-    /\ ps[i].kind \in {"pk", "ko"}
-    /\ IF ps[i].kind = "pk" /\ i <= Len(call.pos)
+    /\ ps[i].kind \in {"po", "pk", "ko"}
+    /\ IF ps[i].kind \in {"po", "pk"} /\ i <= Len(call.pos)
        THEN call.shape = "plain" \/ (call.shape = "mixed" /\ i = 1)     \* bound from a positional argument
        ELSE call.shape \in {"plain", "mixedk"}                          \* bound from a keyword
 ImplNDiag(ps, bad, call) ==
@@ -1153,7 +1194,8 @@ AddPos ==
     /\ LET ps == RefParams(FnOf(case.fn))
            i == Len(case.pos) + 1
        IN /\ i <= (IF HasKind(ps, "va") THEN NPk(ps) + MaxPos ELSE NPk(ps))
-          /\ LET ch == IF case.fn \in GenIds THEN (IF i <= NPk(ps) THEN GChoices(ps[i].ann) ELSE LitsG) ELSE PosChoices(ps, i)
+          /\ LET ch == IF case.fn \in GenIds THEN (IF i <= NPk(ps) THEN GChoices(ps[i].ann) ELSE LitsG)
+                      ELSE IF case.fn \in KwnIds THEN LitsK ELSE PosChoices(ps, i)
              IN \E j \in 1..Len(ch) : case' = [case EXCEPT !.pos = Append(@, ch[j])]
     /\ UNCHANGED <<stage, ta, tb, ob>>
 
@@ -1164,7 +1206,8 @@ AddKw ==
     /\ LET fn == FnOf(case.fn)
            last == IF case.kw = << >> THEN 0 ELSE KwIndex(fn, case.kw[Len(case.kw)].name)
        IN \E j \in (last + 1)..Len(fn.kws) :
-            LET ch == IF fn.id \in GenIds THEN GChoices(RefKwDecl(RefParams(fn), fn.kws[j])) ELSE Lits
+            LET ch == IF fn.id \in GenIds THEN GChoices(RefKwDecl(RefParams(fn), fn.kws[j]))
+                      ELSE IF fn.id \in KwnIds THEN LitsK ELSE Lits
             IN \E m \in 1..Len(ch) : case' = [case EXCEPT !.kw = Append(@, [name |-> fn.kws[j], o |-> ch[m]])]
     /\ UNCHANGED <<stage, ta, tb, ob>>
 
